@@ -33,6 +33,10 @@ def act_expr(a):
     if a is None: return 'none'
     if a == 'defer': return 'Defer'
     if isinstance(a, int): return 'Act<%d>' % a
+    if isinstance(a, tuple) and a[0] == 'send':
+        md = {'p': 0, 'q': 1}
+        if len(a[2]) == 1: return 'ActSend<%d, %s, %d>' % (a[1], a[2][0][0], md[a[2][0][1]])
+        if len(a[2]) == 2: return 'ActSend2<%d, %s, %d, %s, %d>' % (a[1], a[2][0][0], md[a[2][0][1]], a[2][1][0], md[a[2][1][1]])
     if isinstance(a, tuple) and a[0] == 'cpp': return a[1]
     raise ValueError(a)
 
@@ -74,6 +78,12 @@ def emit_machine(prog, m, out, is_root, opts):
                 'exit': 'msm::front::exit_pseudo_state<%s >' % st.exit_event,
                 }[st.kind]
         body = ['VF_STATE_BODY(%d)' % st.idx]
+        if st.entry_send or st.exit_send:
+            md = {'p': 0, 'q': 1}
+            en = ' '.join('vf_send<%s, %d>(e, f);' % (ev2, md[mode]) for ev2, mode in st.entry_send)
+            ex = ' '.join('vf_send<%s, %d>(e, f);' % (ev2, md[mode]) for ev2, mode in st.exit_send)
+            body = ['template <class E, class F> void on_entry(E const& e, F& f) { vf_log(VF_ENTRY(%d), vf_pay(e)); %s }' % (st.idx, en),
+                    'template <class E, class F> void on_exit(E const& e, F& f) { vf_log(VF_EXIT(%d), vf_pay(e)); %s }' % (st.idx, ex)]
         if st.flags: body.append('typedef mpl::vector<%s > flag_list;' % ', '.join(st.flags))
         if st.deferred: body.append('typedef mpl::vector<%s > deferred_events;' % ', '.join(st.deferred))
         if st.internal:
@@ -89,7 +99,10 @@ def emit_machine(prog, m, out, is_root, opts):
     if expl: out.append('  typedef mpl::vector<%s > explicit_creation;' % ', '.join(expl))
     rows = []
     for r in m.rows:
-        rows.append('Row<%s, %s, %s, %s, %s >' % (row_src(m, r), evt_expr(prog, r.evt), row_tgt(m, r), act_expr(r.act), guard_expr(r.guard, r.evt is None)))
+        ge = guard_expr(r.guard, r.evt is None)
+        if getattr(r, 'gsend', None):
+            ge = 'GdSend<%d, %s, %d>' % (r.guard, r.gsend[0][0], {'p': 0, 'q': 1}[r.gsend[0][1]])
+        rows.append('Row<%s, %s, %s, %s, %s >' % (row_src(m, r), evt_expr(prog, r.evt), row_tgt(m, r), act_expr(r.act), ge))
     out.append('  struct transition_table : mpl::vector<\n    %s\n  > {};' % ',\n    '.join(rows))
     if m.internal:
         rows = ['Internal<%s, %s, %s >' % (evt_expr(prog, r.evt), act_expr(r.act), guard_expr(r.guard)) for r in m.internal]
@@ -154,6 +167,23 @@ def emit_cpp(prog, opts=None):
     for k, e in enumerate(prog.events):
         out.append('    case %d: return (int)g_sm.process_event(%s(p));' % (k, e))
     out.append('    default: return -1;\n  }\n}')
+    if opts.get('queue_api'):
+        out.append('__attribute__((noinline)) void vf_enq(int kind, int p) {\n  switch (kind) {')
+        for k, e in enumerate(prog.events):
+            out.append('    case %d: g_sm.enqueue_event(%s(p)); break;' % (k, e))
+        out.append('    default: break;\n  }\n}')
+        out.append('#if VF_IS_MP11')
+        out.append('__attribute__((noinline)) void vf_execq(void) { g_sm.process_event_pool(); }')
+        out.append('__attribute__((noinline)) void vf_exec1(void) { g_sm.process_event_pool(1); }')
+        out.append('__attribute__((noinline)) int vf_qsize(void) { return (int)g_sm.vf_pool_size(); }')
+        out.append('#else')
+        out.append('__attribute__((noinline)) void vf_execq(void) { g_sm.execute_queued_events(); }')
+        out.append('__attribute__((noinline)) void vf_exec1(void) { g_sm.execute_single_queued_event(); }')
+        if opts.get('has_deferred'):
+            out.append('__attribute__((noinline)) int vf_qsize(void) { return (int)g_sm.get_message_queue_size() + (int)g_sm.get_deferred_queue().size(); }')
+        else:
+            out.append('__attribute__((noinline)) int vf_qsize(void) { return (int)g_sm.get_message_queue_size(); }')
+        out.append('#endif')
     out.append('__attribute__((noinline)) int vf_id(int mi, int r) {\n  switch (mi) {')
     for m in prog.machines:
         out.append('    case %d: return (int)VF_IDS(%s)[r];' % (m.idx, machine_obj(prog, m)))
@@ -365,6 +395,9 @@ def step_call(prog, st, decs=None, pay='0'):
     if st[0] == 'stop': return pre + 'VFN(vf_stop)();'
     if st[0] == 'ev':
         return pre + '(void)VFN(vf_ev)(%d, %s);' % (prog.events.index(st[1]), pay)
+    if st[0] == 'enq': return pre + 'VFN(vf_enq)(%d, %s);' % (prog.events.index(st[1]), st[2] if len(st) > 2 and st[2] != 'P' else pay)
+    if st[0] == 'execq': return pre + 'VFN(vf_execq)();'
+    if st[0] == 'exec1': return pre + 'VFN(vf_exec1)();'
     raise ValueError(st)
 
 
@@ -379,7 +412,7 @@ def active_completion_sites(prog, conf):
     return mask
 
 
-def emit_harness(prog, confs, steps, tag, proj=KINDS_ALL, check_result=True, check_post=True, check_flags=False, probe=None, check_introspect=False,
+def emit_harness(prog, confs, steps, tag, proj=KINDS_ALL, check_result=True, check_post=True, check_flags=False, probe=None, check_introspect=False, check_queue=False,
                  extra_pre=None, extra_leaf=None, nsites=None):
     """confs: list of (conf, script).  steps: symbolic step alphabet (list of step descriptors;
     all 'ev' steps are merged into one nondet kind).  Emits harness_p<i> per configuration."""
@@ -396,7 +429,7 @@ def emit_harness(prog, confs, steps, tag, proj=KINDS_ALL, check_result=True, che
         # checkers
         fns = []
         decs_by_kind = {}
-        my_steps = [st for st in steps if (st[0] == 'start') != conf.started]
+        my_steps = [st for st in steps if (st[0] == 'start') != conf.started and not (st[0] == 'exec1' and not conf.queue)]
         for st in my_steps:
             paths = explore(prog, conf, lambda sem, st=st: run_step(sem, st), probe=probe)
             def leaf_fn(dec, log, res, post):
@@ -405,6 +438,7 @@ def emit_harness(prog, confs, steps, tag, proj=KINDS_ALL, check_result=True, che
                 if check_post: l += post_checks(prog, post, tag)
                 if check_flags: l += flag_checks(prog, post, tag)
                 if check_introspect: l += introspect_checks(prog, post, tag)
+                if check_queue: l.append('VF_CHECK(VFN(vf_qsize)() == %d, "%s:number of pending events");' % (len(post.queue) + len(post.deferred), tag))
                 if extra_leaf: l += extra_leaf(conf, st, dec, log, res, post)
                 return tuple(l)
             trie = build_trie(prog, paths, proj, leaf_fn)
@@ -432,6 +466,9 @@ def emit_harness(prog, confs, steps, tag, proj=KINDS_ALL, check_result=True, che
         my_ev = [st for st in my_steps if st[0] == 'ev']
         nalt = (1 if my_ev else 0) + len([st for st in my_steps if st[0] != 'ev'])
         out.append('  uint32_t sel = vf_nondet(0); VF_ASSUME(sel < %d);' % nalt)
+        out.append('#ifdef VF_SEL')
+        out.append('  sel = VF_SEL; vf_inputs[0] = sel;   /* one query per kind of step (event / enqueue / execute queued / stop ...) */')
+        out.append('#endif')
         out.append('  uint32_t kind = vf_nondet(1); VF_ASSUME(kind < %d);' % max(1, len(prog.events)))
         out.append('#ifdef VF_KIND')
         out.append('  kind = VF_KIND; vf_inputs[1] = kind;   /* one query per event kind (guards and payload stay symbolic) */')
@@ -458,13 +495,13 @@ def emit_harness(prog, confs, steps, tag, proj=KINDS_ALL, check_result=True, che
             alt = 1
         for st, fn, _ in fns:
             if st[0] == 'ev': continue
-            out.append('  if (sel == %d) { %s %s(0, P); }' % (alt, step_call(prog, st), fn))
+            out.append('  if (sel == %d) { %s %s(0, P); }' % (alt, step_call(prog, st, None, 'P'), fn))
             alt += 1
         out.append('  VF_WITNESS();')
         out.append('}')
         index.append({'harness': 'harness_p%d' % ci, 'conf': conf_str(conf),
                       'script': [(list(st), dec) for st, dec in script],
-                      'paths': sum(n for _, _, n in fns), 'decs_by_kind': decs_by_kind})
+                      'paths': sum(n for _, _, n in fns), 'decs_by_kind': decs_by_kind, 'nalt': nalt, 'has_ev': bool(my_ev)})
         nh += 1
     out.append('#ifndef __CPROVER__')
     out.append('void (*vf_harnesses[])(void) = {%s};' % ', '.join('harness_p%d' % i for i in range(nh)))
